@@ -241,6 +241,33 @@ def oracle_c11(step):
                "certify", "add-exemption", "fmt"):
         if other_local(pre) != other_local(post):
             out.append({"what": f"`{cmd}` altered criteria / wildcard audits / trusted entries / policy / import configuration"})
+    if cls == "trust" and len(step.args) >= 3:
+        # `trust <crate> <login> [--criteria ..]`: what may change is one trusted entry of that crate for that publisher
+        # and exactly the criteria asked for (added, or its window updated); every other trusted entry — other crates,
+        # other publishers, other criteria — and everything else in the local files stays as it was
+        pkg, login = step.args[1], step.args[2]
+        want = {step.args[i + 1] for i, a in enumerate(step.args[:-1]) if a == "--criteria"}
+
+        def rest(snap):
+            a, c = snap["audits"], snap["config"]
+            return jkey({"criteria": a.get("criteria"), "wildcard": a.get("wildcard-audits"),
+                         "policy": c.get("policy"), "imports": c.get("imports"), "default": c.get("default-criteria")})
+        if rest(pre) != rest(post):
+            out.append({"what": f"`{cmd}` altered criteria / wildcard audits / policy / import configuration"})
+        pt, qt = pre["audits"].get("trusted") or {}, post["audits"].get("trusted") or {}
+
+        def crit_of(e):
+            # meaning, not spelling: cargo-vet writes the minimal names of what was asked for
+            return jclosure(post["audits"], aslist(e.get("criteria")))
+        want = jclosure(post["audits"], sorted(want)) if want else want
+        for crate in sorted(set(pt) | set(qt)):
+            P = Counter(json.dumps(e, sort_keys=True) for e in pt.get(crate, []))
+            Q = Counter(json.dumps(e, sort_keys=True) for e in qt.get(crate, []))
+            for txt in list((P - Q).elements()) + list((Q - P).elements()):
+                e = json.loads(txt)
+                if crate != pkg or f"user{e.get('user-id')}" != login or (want and crit_of(e) != want):
+                    out.append({"what": f"`{cmd}` added, removed or altered a trusted entry it was not asked about: {crate} {txt[:160]}"})
+                    break
     # 2. local audits
     pa, qa = local_audits(pre), local_audits(post)
     target = step.args[1] if cls in ("certify", "add-exemption", "record-violation") and len(step.args) > 1 else None
